@@ -1317,8 +1317,8 @@ func main() {
 			byField := map[string]bool{}
 			var keep, rest []Case
 			for _, c := range normal {
-				if !byField[c.Field] {
-					byField[c.Field] = true
+				if !byField[normField(c.Field)] {
+					byField[normField(c.Field)] = true
 					keep = append(keep, c)
 				} else {
 					rest = append(rest, c)
